@@ -288,6 +288,49 @@ def _len_subject_is_stored(body, arg_op):
     return False
 
 
+def _redispatch_sinks(body, l):
+    """call sites at which the element held in local `l` is processed as an element again: converted (possibly
+    wrapped in an OutputEvent) back into an InputEvent, or generate_events called on it"""
+    sinks = []
+
+    def add(b, t, c):
+        if all(b != b0 or t is not t0 for (b0, t0, _c0) in sinks):
+            sinks.append((b, t, c))
+
+    for (b, i, node, how, _c) in R.forward_value_uses(body, l, 8):
+        if i == R.TERM and node.get("k") == "call" and "fn" in node:
+            c = Callee(node["fn"])
+            if ("InputEvent" in c.inst and c.path.split("::")[-1] == "from") or (c.path.endswith("generate_events") and "SvgElement" in c.inst):
+                add(b, node, c)
+        elif i != R.TERM and "rv" in node and node["rv"].get("k") == "aggr" and "OutputEvent" in str(node["rv"].get("adt", "")):
+            for (b2, i2, node2, how2, _c2) in R.forward_value_uses(body, node["lhs"][0], 6):
+                if i2 == R.TERM and node2.get("k") == "call" and "fn" in node2:
+                    c = Callee(node2["fn"])
+                    if "InputEvent" in c.inst and c.path.split("::")[-1] == "from":
+                        add(b2, node2, c)
+    for (b, t, c) in body.call_sites(R.path_endswith("generate_events")):
+        if t["args"] and R.origin_local(body, t["args"][0]) == l:
+            add(b, t, c)
+    return sinks
+
+
+def _attrs_loop_element(body, header):
+    """the element local L of `for .. in &L.attrs` for the loop with this header, if it is one"""
+    for (ib, it, ic) in body.call_sites(lambda c: c.decl_path == "std::iter::Iterator::next"):
+        if ib != header and not (ib in body.loops.get(header, ()) and body.dominates(ib, header)):
+            if ib != header:
+                continue
+        src = R.origin(body, it["args"][0], carriers={"into_iter": 0})
+        f = None
+        if src[0] == "call" and "fn" in src[2] and Callee(src[2]["fn"]).decl_path == "std::iter::IntoIterator::into_iter":
+            f = R.origin(body, src[2]["args"][0], carriers={})
+        elif src[0] == "field":
+            f = src
+        if f is not None and f[0] == "field" and f[1][1] and f[1][1][-1] == ".attrs":
+            return f[1][0]
+    return None
+
+
 def _len_subject_is_scope_attr(body, arg_op):
     """arg_op is `&value` where value is an attribute value of the element L being iterated (`for (k, v) in &L.attrs`)
     and L is afterwards handed to push_element (its attributes become the variables of the new scope)"""
@@ -324,7 +367,8 @@ def _len_subject_is_scope_attr(body, arg_op):
     for (bb, t, c) in body.call_sites(lambda c: c.path == "svgdx::context::TransformerContext::push_element"):
         if len(t["args"]) >= 2 and R.origin_local(body, t["args"][1]) == src_local:
             return True
-    return False
+    # ... or is processed as an element again (a container pushes its attributes as variables in turn)
+    return bool(_redispatch_sinks(body, src_local))
 
 
 # ---------------------------------------------------------------------------
@@ -635,6 +679,31 @@ def scope_var_limit(prog, chk):
             errs = R.constructs_variant(body, body.reachable, "svgdx::errors::SvgdxError", "VarLimitError")
             chk.ob(bool(reads) and errs, "A7.scope-var-limit", key, body.where(bb, t.get("line")), "the evaluated attributes that become variables of the new scope are tested against var_limit first", f"{body.short} evaluates the element's attributes and makes them variables of a new scope without testing them against var_limit: a recursive <reuse> whose attribute mentions itself twice doubles the value at every level (memory exhaustion long before the depth limit)")
     chk.floor("A7.scope-var-limit", n, 2, "push_element call site")
+    # an element whose attributes were evaluated and which is then *dispatched again* (converted back into an input
+    # event, or generate_events called on it) may be a container that pushes those attributes as variables in turn
+    m = 0
+    for body in prog.bodies.values():
+        if body.unit != "svgdx-lib":
+            continue
+        for (eb, et, ec) in body.call_sites(R.path_endswith("SvgElement::eval_attributes")):
+            l = R.origin_local(body, et["args"][0])
+            if l is None or body.local_name(l) == "self":
+                continue
+            sinks = [(b, t, c) for (b, t, c) in _redispatch_sinks(body, l) if b in body.reach([eb])]
+            if not sinks:
+                continue
+            m += 1
+            # a var_limit test in a loop over this element's attributes, whose header dominates every sink
+            guards = []
+            for (x, i, node) in R.place_reads(body, (".var_limit",)):
+                lp = R.loop_containing(body, x)
+                if lp is not None and _attrs_loop_element(body, lp[0]) == l:
+                    guards.append(lp)
+            name = body.local_name(l)
+            for (b, t, c) in sinks:
+                ok = any(body.dominates(lp[0], b) and b not in lp[1] for lp in guards) and R.constructs_variant(body, body.reachable, "svgdx::errors::SvgdxError", "VarLimitError")
+                chk.ob(ok, "A7.scope-var-limit", f"{body.short}:{name}:redispatch", body.where(b, t.get("line")), f"`{name}` (attributes evaluated) is processed as an element again only after its attributes passed a var_limit test", f"{body.short} evaluates the attributes of `{name}` and then processes it as an element again without testing them against var_limit: if it is a container its (expanded) attributes become variables of its content - a group that reuses itself with v=\"$v$v\" doubles the value at every level (memory exhaustion long before the depth limit)")
+    chk.floor("A7.scope-var-limit:redispatch", m, 1, "element evaluated and dispatched again")
 
 
 def depth_test_unconditional(prog, chk):
